@@ -80,6 +80,9 @@ func c03Envs(r *core.Rand) []map[string]any {
 }
 
 var c03Fixed = []string{
+	// includes: of a file that includes itself (ends at the depth limit), of one that fails inside, of one that works
+	"{% include 'selfinc.html' %}", "a{% include 'failinc.html' %}b", "[{% include 'card.html' %}]{% for i in (1..2) %}{% include 'card.html' %}{% endfor %}", "{% for x in words %}{% include 'failinc.html' %}{% endfor %}",
+	"{% include 'card.html' %}|{% include 'no-such-file.html' %}", "{% capture c %}{% include 'selfinc.html' %}{% endcapture %}", "{% xcard recs[0] %}{% include 'card.html' %}",
 	"{{ spare | sort | join: ',' }}|{{ spare | join: ',' }}", "{{ spare | reverse | first }}{{ spare | uniq | size }}{{ spare | compact | last }}", "{{ spare | concat: spare | size }}{{ spare | concat: words | join: ' ' }}",
 	"{{ words | sort_natural | join: ' ' }}{{ words | sort | first }}", "{{ recs | sort: 'k' | map: 'name' | join: '' }}{{ recs | map: 'k' | compact | size }}", "{% assign spare = 'shadow' %}{{ spare }}{% assign n = 99 %}{{ n }}",
 	"{% capture words %}captured{% endcapture %}{{ words }}", "{% for x in spare %}{% cycle 'a', 'b', 'c' %}{{ x }}{% if forloop.index == 3 %}{% break %}{% endif %}{% endfor %}{{ x }}{{ forloop }}",
@@ -112,6 +115,13 @@ func c03Engine(delims *[4]string) *liquid.Engine {
 	if _, err := e.ParseTemplateAndCache([]byte(card), "card.html", 1); err != nil {
 		panic(err)
 	}
+	selfinc, failinc := "s{% include 'selfinc.html' %}e", "f{{ n | divided_by: 0 }}g"
+	if delims != nil {
+		selfinc, _ = respell(selfinc, *delims)
+		failinc, _ = respell(failinc, *delims)
+	}
+	e.ParseTemplateAndCache([]byte(selfinc), "selfinc.html", 1)
+	e.ParseTemplateAndCache([]byte(failinc), "failinc.html", 1)
 	return e
 }
 
